@@ -160,7 +160,11 @@ def random_recipe(rng, space=None):
             opts = {"min": [n, n + 1], "any": [n, n + 1, 2 * n + 1, n * 5, n * 9, n * 40 + 7, 1000],
                     "roomy": [n * 400, n * 1000 + 7], "huge": [n * 300, n * 700 + 13]}[mode]
         r["pb"] = rng.choice(opts)
-    if not has_default_matrix(wi, wih, d, dh) or rng.random() < 0.2:
+    if sp.get("allow_missing_matrix") and not has_default_matrix(wi, wih, d, dh) and rng.random() < 0.25:
+        # no default matrix exists and none is supplied: the encoder must refuse this configuration
+        r["qm"] = None
+        r["expect_rejection"] = "MissingQuantizationMatrixError"
+    elif not has_default_matrix(wi, wih, d, dh) or rng.random() < 0.2:
         r["qm"] = random_matrix(rng, d, dh)
     else:
         r["qm"] = None
